@@ -284,6 +284,21 @@ pub fn run(out_dir: &str, tier: &str, seed: u64, only: Option<String>) -> Value 
             }
         }
     }
+    // the bare model types (not wrapped in the enum over all models): a model may override the trait's default virial functions, and the
+    // enum / wrapper containers do not forward such overrides
+    if only.is_none() || only.as_deref().map_or(false, |o| o.starts_with("bare_")) {
+        let sel = |n: &str| only.as_ref().map_or(true, |o| o == n);
+        if sel("bare_pr2") {
+            results.push(one("bare_pr2", &Arc::new(configs::peng_robinson(2)), 2, 400.0, &par, false));
+        }
+        if sel("bare_pcsaft_propane_butane_kij") {
+            let p = configs::with_kij(&configs::pcsaft_params(&["propane", "butane"], "gross2001.json", None), 0.03);
+            results.push(one("bare_pcsaft_propane_butane_kij", &Arc::new(feos::pcsaft::PcSaft::new(Arc::new(p))), 2, 400.0, &par, false));
+        }
+        if full && sel("bare_saftvrmie_ethane") {
+            results.push(one("bare_saftvrmie_ethane", &Arc::new(configs::saftvrmie(&["ethane"])), 1, 305.0, &par, false));
+        }
+    }
     // Helmholtz energy functionals used as bulk models (they implement `Residual`, so the virial functions exist for them)
     {
         use feos::hard_sphere::FMTVersion;
